@@ -14,11 +14,14 @@
   source sits in such a context and the templates are parsed by html/template (`C14_templates_ok`,
   an obligation over the regenerated facts); (3) form actions pass the URL filter
   (`C14_action_scheme`); (4) metadata locations (`C14_location`).
-  Partial: the full WHATWG tokenizer is not modelled; the composition "tokenize ∘ render = intended
-  skeleton" is carried by (1)+(2) for the two tokenizer states involved and by the correspondence
-  (the real output is parsed with golang.org/x/net/html by the harness).
+  (5) the forms as wholes (`C14_quote_structure`, `C14_form_skeletons`): cut at every `"`, a rendered
+  form is the template's skeleton with the holes filled by escaped values, for every data; the
+  skeletons of the templates in the current source are the readable lists in `Proofs/HtmlForm.lean`.
+  Partial: the full WHATWG tokenizer is not modelled — the argument is carried for the states the
+  templates use (double-quoted attribute value: ends at the next `"`; data state after a tag: ends at
+  the next `<`); that x/net/html reads the real output the same way is checked by the harness.
 -/
-import SamlVerif.Proofs.Html
+import SamlVerif.Proofs.HtmlForm
 import SamlVerif.Generated.Facts
 
 namespace SamlVerif.Html
@@ -62,6 +65,42 @@ theorem C14_action_scheme (s proto : Bytes) (h : beforeColon (urlFilter s) = som
 theorem C14_action_inert (s : Bytes) (c : UInt8) (hc : c ∈ urlAttrEscape s) :
     c.toNat ≠ 34 ∧ c.toNat ≠ 60 ∧ c.toNat ≠ 62 ∧ c.toNat ≠ 39 ∧ c.toNat ≠ 0 ∧ c.toNat ≠ 43 :=
   htmlEscape_inert _ c hc
+
+/-! ### the forms as a whole: "each form has exactly the intended action and hidden fields" -/
+
+/-- **Quote structure.** Cut the rendered document at every `"` (which is how a tokenizer inside a tag
+    finds the end of a double-quoted attribute value): for *every* data the pieces are the template's
+    own skeleton with each hole filled by the escaped value.  No value adds, removes or moves a quote. -/
+theorem C14_quote_structure (t : Bytes) (data : Bytes → Bytes) (hk : holesKnown (skel (parseTemplate t)) = true) :
+    pieces (render t data) = (skelT (parseTemplate t)).map (fill data) :=
+  pieces_render_tidy data (parseTemplate t) hk
+
+/-- … so two renderings of one template differ in no static piece and have the same number of pieces -/
+theorem C14_structure_independent_of_data (t : Bytes) (d1 d2 : Bytes → Bytes) (hk : holesKnown (skel (parseTemplate t)) = true) :
+    (pieces (render t d1)).length = (pieces (render t d2)).length :=
+  pieces_render_length d1 d2 (parseTemplate t) hk
+
+/-- **Obligation at the regenerated templates**: every template of the current source has exactly this
+    skeleton — the intended action and hidden fields, each interpolated string alone between its own
+    pair of quotes (the toast: between its own pair of tags) — and every hole has a known escaper. -/
+theorem C14_form_skeletons :
+    Facts.templates.map (fun t => (t.1, skelT (parseTemplate t.2.2))) =
+      [("identity_provider.go", idpResponseForm), ("service_provider.go", spRequestForm), ("service_provider.go", spRequestForm),
+       ("service_provider.go", spResponseForm), ("samlidp/session.go", idpLoginForm)] := by decide +kernel
+
+theorem C14_holes_known : ∀ t ∈ Facts.templates, holesKnown (skel (parseTemplate t.2.2)) = true := by decide +kernel
+
+/-- what that means for one field, spelled out: in every rendering of the SP's request form the
+    twelfth piece — the quoted string after ` name="SAMLRequest" value=` — is the escaped message and
+    the eighteenth the escaped relay state, whatever either contains -/
+theorem C14_sp_request_fields (t : Bytes) (ht : skelT (parseTemplate t) = spRequestForm)
+    (hk : holesKnown (skel (parseTemplate t)) = true) (data : Bytes → Bytes) :
+    (pieces (render t data))[3]? = some (urlAttrEscape (data (B "URL"))) ∧
+    (pieces (render t data))[11]? = some (htmlEscape (data (B "SAMLRequest"))) ∧
+    (pieces (render t data))[17]? = some (htmlEscape (data (B "RelayState"))) ∧
+    (pieces (render t data)).length = 27 := by
+  rw [C14_quote_structure t data hk, ht]
+  simp [spRequestForm, S, H, fill, fillPart, escapeFor]
 
 /-! ### obligations at the regenerated facts -/
 
